@@ -512,8 +512,10 @@ static void check_fp(uint64_t abits, uint64_t bbits, bool *special) {
     if (!std::isnan(fa) && !std::isnan(fb)) check_minmax<float>("float", aws_min_float, aws_max_float, fa, fb);
 }
 
+static void check_asm_inlined(uint32_t a, uint32_t b, uint64_t e, uint64_t f);
 static void check_pair64(uint64_t a, uint64_t b, Tally &t) {
     t.pairs++;
+    check_asm_inlined((uint32_t)a, (uint32_t)(b >> 7), a, b);
     const u128 s = (u128)a + b, p = (u128)a * b;
     const bool so = s > M64, po = p > M64;
     for (const ArithV &v : ARITH) {
@@ -585,8 +587,61 @@ static void check_pair64(uint64_t a, uint64_t b, Tally &t) {
     check_unary64(b);
 }
 
+// The inline-assembly variants are also exercised *inlined* into code where several results are live at once and
+// are stored to memory: an asm statement whose constraints do not match its template (a hard-coded register, a
+// missing clobber) still works when the function is called out of line through a pointer - the operand then
+// happens to sit in the return register - and only goes wrong under a different register allocation.
+__attribute__((noinline, flatten)) static void asm_inlined_context(uint32_t a, uint32_t b, uint64_t e, uint64_t f, uint32_t *o32,
+                                                                    uint64_t *o64, int *rcs) {
+    // a value that has to stay in eax across the inlined code: the register allocator must then give the asm operands
+    // other registers (a template that silently assumes eax/rax is caught; so is a clobber it does not declare)
+    uint32_t keep = a ^ 0x9E3779B9u;
+    __asm__ volatile("" : "+a"(keep));
+    uint32_t r1 = asm_aws_add_u32_saturating(a, b);
+    __asm__ volatile("" : "+a"(keep));
+    uint32_t r2 = asm_aws_add_u32_saturating(b, a);
+    __asm__ volatile("" : "+a"(keep));
+    rcs[4] = keep == (a ^ 0x9E3779B9u) ? 0 : 1;
+    uint32_t r3 = asm_aws_mul_u32_saturating(a, b);
+    uint64_t r4 = asm_aws_add_u64_saturating(e, f);
+    uint64_t r5 = asm_aws_mul_u64_saturating(e, f);
+    uint32_t c32a = 0x5A5A5A5Au, c32m = 0x5A5A5A5Au;
+    uint64_t c64a = 0x5A5A5A5A5A5A5A5Aull, c64m = 0x5A5A5A5A5A5A5A5Aull;
+    rcs[0] = asm_aws_add_u32_checked(a, b, &c32a);
+    rcs[1] = asm_aws_mul_u32_checked(a, b, &c32m);
+    rcs[2] = asm_aws_add_u64_checked(e, f, &c64a);
+    rcs[3] = asm_aws_mul_u64_checked(e, f, &c64m);
+    o32[0] = r1;
+    o32[1] = r2;
+    o32[2] = r3;
+    o32[3] = c32a;
+    o32[4] = c32m;
+    o64[0] = r4;
+    o64[1] = r5;
+    o64[2] = c64a;
+    o64[3] = c64m;
+}
+static void check_asm_inlined(uint32_t a, uint32_t b, uint64_t e, uint64_t f) {
+    uint32_t o32[5];
+    uint64_t o64[4];
+    int rcs[5];
+    asm_inlined_context(a, b, e, f, o32, o64, rcs);
+    PBT_CHECK(rcs[4] == 0, "[x64asm, inlined] aws_add_u32_saturating(%u, %u) clobbered a register it does not declare", a, b);
+    const uint64_t s32 = (uint64_t)a + b, p32 = (uint64_t)a * b;
+    const u128 s64 = (u128)e + f, p64 = (u128)e * f;
+    PBT_CHECK(o32[0] == (s32 > M32 ? M32 : (uint32_t)s32) && o32[1] == o32[0], "[x64asm, inlined] aws_add_u32_saturating(%u, %u) = %u / %u", a, b, o32[0], o32[1]);
+    PBT_CHECK(o32[2] == (p32 > M32 ? M32 : (uint32_t)p32), "[x64asm, inlined] aws_mul_u32_saturating(%u, %u) = %u", a, b, o32[2]);
+    PBT_CHECK(o64[0] == (s64 > M64 ? M64 : (uint64_t)s64), "[x64asm, inlined] aws_add_u64_saturating(%" PRIu64 ", %" PRIu64 ") = %" PRIu64, e, f, o64[0]);
+    PBT_CHECK(o64[1] == (p64 > M64 ? M64 : (uint64_t)p64), "[x64asm, inlined] aws_mul_u64_saturating(%" PRIu64 ", %" PRIu64 ") = %" PRIu64, e, f, o64[1]);
+    PBT_CHECK((rcs[0] == AWS_OP_SUCCESS) == (s32 <= M32) && (s32 > M32 || o32[3] == (uint32_t)s32), "[x64asm, inlined] aws_add_u32_checked(%u, %u) rc=%d r=%u", a, b, rcs[0], o32[3]);
+    PBT_CHECK((rcs[1] == AWS_OP_SUCCESS) == (p32 <= M32) && (p32 > M32 || o32[4] == (uint32_t)p32), "[x64asm, inlined] aws_mul_u32_checked(%u, %u) rc=%d r=%u", a, b, rcs[1], o32[4]);
+    PBT_CHECK((rcs[2] == AWS_OP_SUCCESS) == (s64 <= M64) && (s64 > M64 || o64[2] == (uint64_t)s64), "[x64asm, inlined] aws_add_u64_checked(%" PRIu64 ", %" PRIu64 ") rc=%d", e, f, rcs[2]);
+    PBT_CHECK((rcs[3] == AWS_OP_SUCCESS) == (p64 <= M64) && (p64 > M64 || o64[3] == (uint64_t)p64), "[x64asm, inlined] aws_mul_u64_checked(%" PRIu64 ", %" PRIu64 ") rc=%d", e, f, rcs[3]);
+}
+
 static void check_pair32(uint32_t a, uint32_t b, Tally &t) {
     t.pairs++;
+    check_asm_inlined(a, b, ((uint64_t)a << 32) | b, ((uint64_t)b << 31) | a);
     const uint64_t s = (uint64_t)a + b, p = (uint64_t)a * b;
     const bool so = s > M32, po = p > M32;
     for (const ArithV &v : ARITH) {
